@@ -1,4 +1,4 @@
-import PySMT.Proofs.C07Decls
+import PySMT.Proofs.C07WF
 /-! # C07: a concrete instance of the theorems' hypotheses (non-vacuity), unfolded by hand because `Term.typeOf`,
 `Printable`, … are compiled by well-founded recursion and do not reduce in `decide` -/
 namespace PySMT.C07
@@ -46,5 +46,111 @@ theorem scriptOK_t1 : ScriptOK "QF_LIA" t1 = true := by
 theorem avGuard_t1 : avGuard t1 = true := by simp [avGuard, t1, Term.sym, Term.int]
 
 theorem noQuant_t1 : noQuant t1 = true := by simp [noQuant, t1, Term.sym, Term.int, Op.isQuantifier]
+
+/-! ## more witnesses: a bit-vector term, a `.def_k` clash, an array value, a quantifier -/
+
+/-- assembling `Printable` for a node that is not a binder -/
+theorem pr_node (env : SEnv) (scope : List Sym) (op : Op) (args : List Term) (p : Payload) (τ : Ty)
+    (h1 : op ≠ .forall_) (h2 : op ≠ .exists_)
+    (hS : stdTy op p (args.map tyD) = some τ) (hT : typeOfNode op p (args.map Term.typeOf) = some τ)
+    (hok : nodeOK env scope op p args = true) (hargs : ∀ a ∈ args, Printable env scope a = true) :
+    Printable env scope (.node op args p) = true := by
+  rw [Printable.eq_def]
+  simp only [hS, hT, beq_self_eq_true, Bool.true_and]
+  have hall : (args.map (Printable env scope)).all id = true := by
+    simp only [List.all_map, List.all_eq_true, Function.comp, id]; exact hargs
+  split
+  · exact absurd rfl h1
+  · exact absurd rfl h2
+  · simp [hok, hall]
+
+def bsym : Sym := ⟨"b", [], .bv 2⟩
+/-- `(bvult b (bvnot b))` -/
+def tBV : Term := .node .bvUlt [Term.sym bsym, .node .bvNot [Term.sym bsym] (.ints [2])] .none
+def envBV : SEnv := { funs := [bsym] }
+
+theorem ty_b : (Term.sym bsym).typeOf = some (.bv 2) := by rw [Term.sym, typeOf_node]; decide
+theorem pr_b : Printable envBV [] (Term.sym bsym) = true :=
+  pr_node envBV [] .symbol [] (.sym bsym) (.bv 2) (by decide) (by decide) (by decide) (by decide) (by decide +kernel)
+    (fun _ h => by simp at h)
+theorem ty_nb : (Term.node .bvNot [Term.sym bsym] (.ints [2])).typeOf = some (.bv 2) := by
+  rw [typeOf_node]; simp only [List.map, ty_b]; decide
+theorem pr_nb : Printable envBV [] (.node .bvNot [Term.sym bsym] (.ints [2])) = true :=
+  pr_node envBV [] .bvNot _ _ (.bv 2) (by decide) (by decide)
+    (by simp only [List.map, tyD, ty_b, Option.getD_some]; decide) (by simp only [List.map, ty_b]; decide) (by decide)
+    (fun a h => by simp only [List.mem_singleton] at h; subst h; exact pr_b)
+theorem pr_tBV : Printable envBV [] tBV = true :=
+  pr_node envBV [] .bvUlt _ _ .bool (by decide) (by decide)
+    (by simp only [List.map, tyD, ty_b, ty_nb, Option.getD_some]; decide) (by simp only [List.map, ty_b, ty_nb]; decide)
+    (by decide)
+    (fun a h => by
+      simp only [List.mem_cons, List.not_mem_nil, or_false] at h
+      rcases h with rfl | rfl
+      · exact pr_b
+      · exact pr_nb)
+
+def d0 : Sym := ⟨".def_0", [], .bool⟩
+def psym : Sym := ⟨"p", [], .bool⟩
+/-- `(and .def_0 p)`: a user symbol spelled like the first let name of the DAG printer -/
+def tDef : Term := .node .and [Term.sym d0, Term.sym psym] .none
+def envDef : SEnv := { funs := [d0, psym] }
+
+theorem ty_d0 : (Term.sym d0).typeOf = some .bool := by rw [Term.sym, typeOf_node]; decide
+theorem ty_p : (Term.sym psym).typeOf = some .bool := by rw [Term.sym, typeOf_node]; decide
+theorem pr_tDef : Printable envDef [] tDef = true :=
+  pr_node envDef [] .and _ _ .bool (by decide) (by decide)
+    (by simp only [List.map, tyD, ty_d0, ty_p, Option.getD_some]; decide) (by simp only [List.map, ty_d0, ty_p]; decide)
+    (by decide)
+    (fun a h => by
+      simp only [List.mem_cons, List.not_mem_nil, or_false] at h
+      rcases h with rfl | rfl
+      · exact pr_node envDef [] .symbol [] (.sym d0) .bool (by decide) (by decide) (by decide) (by decide)
+          (by decide +kernel) (fun _ h => by simp at h)
+      · exact pr_node envDef [] .symbol [] (.sym psym) .bool (by decide) (by decide) (by decide) (by decide)
+          (by decide +kernel) (fun _ h => by simp at h))
+theorem nq_tDef : noQuant tDef = true := by simp [noQuant, tDef, Term.sym, Op.isQuantifier]
+theorem ag_tDef : avGuard tDef = true := by simp [avGuard, tDef, Term.sym]
+
+/-- the array value `Array(Int, 0, {1: 2, 3: 4})` -/
+def tAV : Term := .node .arrayValue [Term.int 0, Term.int 1, Term.int 2, Term.int 3, Term.int 4] (.ty .int)
+
+theorem ty_int (n : Int) : (Term.int n).typeOf = some .int := by rw [Term.int, typeOf_node]; rfl
+theorem pr_int (n : Int) : Printable {} [] (Term.int n) = true :=
+  pr_node {} [] .intConst [] (.i n) .int (by decide) (by decide) rfl rfl (by simp [nodeOK]; decide) (fun _ h => by simp at h)
+theorem pr_tAV : Printable {} [] tAV = true :=
+  pr_node {} [] .arrayValue _ _ (.array .int .int) (by decide) (by decide)
+    (by simp only [List.map, tyD, ty_int, Option.getD_some]; decide) (by simp only [List.map, ty_int]; decide)
+    (by simp only [nodeOK, ty_int]; decide)
+    (fun a h => by
+      simp only [List.mem_cons, List.not_mem_nil, or_false] at h
+      rcases h with rfl | rfl | rfl | rfl | rfl <;> exact pr_int _)
+theorem ag_tAV : avGuard tAV = true := by
+  simp [avGuard, tAV, Term.int, pairsOf, constVal, Val.hasSort, pairwiseNe]
+
+def xq : Sym := ⟨"x", [], .int⟩
+/-- `(forall ((x Int)) (<= x x))` -/
+def tQ : Term := Term.mkForall [xq] (.node .le [Term.sym xq, Term.sym xq] .none)
+
+theorem ty_xq : (Term.sym xq).typeOf = some .int := by rw [Term.sym, typeOf_node]; decide
+theorem ty_le : (Term.node .le [Term.sym xq, Term.sym xq] .none).typeOf = some .bool := by
+  rw [typeOf_node]; simp only [List.map, ty_xq]; decide
+theorem pr_tQ : Printable {} [] tQ = true := by
+  have hx : Printable {} [xq] (Term.sym xq) = true :=
+    pr_node {} [xq] .symbol [] (.sym xq) .int (by decide) (by decide) (by decide) (by decide) (by decide +kernel)
+      (fun _ h => by simp at h)
+  have hle : Printable {} [xq] (.node .le [Term.sym xq, Term.sym xq] .none) = true :=
+    pr_node {} [xq] .le _ _ .bool (by decide) (by decide)
+      (by simp only [List.map, tyD, ty_xq, Option.getD_some]; decide) (by simp only [List.map, ty_xq]; decide) (by decide)
+      (fun a h => by
+        simp only [List.mem_cons, List.not_mem_nil, or_false] at h
+        rcases h with rfl | rfl <;> exact hx)
+  rw [tQ, Term.mkForall, Printable.eq_def]
+  have hS : stdTy .forall_ (.qvars [xq]) [tyD (.node .le [Term.sym xq, Term.sym xq] .none)] = some .bool := by
+    simp only [tyD, ty_le, Option.getD_some]; decide
+  have hT : typeOfNode .forall_ (.qvars [xq]) [(Term.node .le [Term.sym xq, Term.sym xq] .none).typeOf] = some .bool := by
+    simp only [ty_le]; decide
+  have hb : binderOK {} [xq] = true := by decide +kernel
+  simp only [List.map, hS, hT, beq_self_eq_true, Bool.true_and, hb, List.reverse_cons, List.reverse_nil, List.nil_append,
+    List.append_nil, hle, List.all_cons, List.all_nil, id, Bool.and_self]
 
 end PySMT.C07
